@@ -122,6 +122,27 @@ ROUND4 = {
 }
 for _k, _v in ROUND4.items():
     ROUND3[_k] = (ROUND3.get(_k, "") + " " + _v).strip()
+ROUND5 = {
+ "C02": "One re-serialisation escapes only '/' (as '\\/'); objects may arrive with \"signatures\": null.",
+ "C03": "One proto-event is built for every room version in turn in one process; proto-events whose unsigned repeats a member name.",
+ "C04": "A forged hashes member whose name is spelled with an escape.",
+ "C06": "Entries under signatures that are no ed25519 signatures (of an unrelated server, and under another key ID of a required one).",
+ "C07": "Third-party invites with an ill-typed profile member next to them; event types spelt like named thresholds in the events map.",
+ "C08": "Removal of a peer's or superior's users entry is a violation even where users_default makes up for it; event types spelt like named thresholds.",
+ "C09": "AddAuthEvents also from a provider that does not hold the create event (versions that never list it).",
+ "C10": "State sets that are not fork tips: one set takes over another's event for a key, its own stays in the auth difference.",
+ "C11": "Directed scenarios resolved repeatedly: v1 with the pre-fork member events (or one of the candidates) as auth events, 120 calls; v2 / v2.1 with a chain of four power-level changes in the auth difference, 60 calls; mixed (non-tip) state sets in the permutation scenarios.",
+ "C12": "Messages with a non-map entry of another entity under signatures.",
+ "C13": "Tamperings: method in another letter case, repeated parameters whose first occurrence is empty, a second line with the origin in another letter case.",
+ "C14": "Whole-response faults 'same state event twice' and 'state event and its hash-broken copy'; send_join with the redacted copy of a power-levels event in the state and the intact one among the auth events; load batches with intact / redacted pairs the rules judge differently.",
+ "C15": "The authoriser guard of send_join is driven in every room version; invites of another event type that carry the invitee as state key and membership invite.",
+ "C16": "Allow / deny ranges in IPv4-mapped IPv6 notation; invalid names (userinfo, trailing colon, path, query, fragment) through the plain client's own request builders; escaped quotes inside quoted Cache-Control arguments.",
+ "C17": "A sender over the byte limit only next to a type / state key over the code-point limit.",
+ "C18": "Every mutated Authorization header is also sent twice, the second time with the origin in the other letter case.",
+ "C20": "Durations of 2^34 and 2^62 seconds; negative durations from -1 to -2^63+1 (never valid)."
+}
+for _k, _v in ROUND5.items():
+    ROUND3[_k] = (ROUND3.get(_k, "") + " " + _v).strip()
 for _k, _v in ROUND3.items():
     CLAIMS[_k]["note"] = CLAIMS[_k]["note"] + " " + _v
 
